@@ -51,6 +51,10 @@ def build_db(value, other=None):
     return {
         (1, 3, 1, 1, 0): value,
         (1, 3, 1, 2, 0): n(("int", 42)),
+        # last sub-identifiers 72 (48) and 200 (81 48): encodings that share
+        # their final octet
+        (1, 3, 1, 3, 72): n(("int", 72)),
+        (1, 3, 1, 3, 200): value,
         (1, 3, 2, 1, 0): n(("str", b"x")),
         ENTRY + (1, 1): n(("int", 1)),
         ENTRY + (1, 2): value,
@@ -63,6 +67,9 @@ def build_db(value, other=None):
         T2 + (1, 2, 1): n(("str", b"r1c2")),
         T2 + (1, 2, 3): value,
         (1, 3, 9, 1, 0): value,
+        # a sibling subtree whose number starts with the digits of 1.3.1
+        (1, 3, 10, 1, 0): value,
+        (1, 3, 10, 2, 0): n(("int", 77)),
     }
 
 
@@ -99,6 +106,9 @@ def method_ops(value):
         ("walk", ("walk", (1, 3, 1))),
         ("multiwalk", ("multiwalk", [(1, 3, 1), (1, 3, 9)])),
         ("bulkwalk", ("bulkwalk", [(1, 3, 1), ENTRY], 3)),
+        # roots of which one's dotted string is a textual prefix of the other's
+        ("multiwalk-prefix-siblings", ("multiwalk", [(1, 3, 1), (1, 3, 10)])),
+        ("bulkwalk-prefix-siblings", ("bulkwalk", [(1, 3, 10), (1, 3, 1)], 2)),
         ("bulkget", ("bulkget", [(1, 3, 1, 1), (1, 3, 9, 1, 0)], [(1, 3, 1), (1, 3, 9)], 2)),
         ("bulkget-empty-listing", ("bulkget", [(1, 3, 1, 1), (1, 3, 1, 2)], [], 0)),
         ("bulkget-listing-at-end-of-view", ("bulkget", [(1, 3, 1, 1)], [(1, 3, 9, 1, 0)], 2)),
@@ -212,10 +222,10 @@ def type_leaks(obj, path="result"):
     return leaks
 
 
-def creds():
-    from puresnmp.credentials import V2C
+def creds(v1=False):
+    from puresnmp.credentials import V1, V2C
 
-    return V2C("public")
+    return V1("public") if v1 else V2C("public")
 
 
 def request_view(entry):
@@ -228,15 +238,15 @@ def request_view(entry):
     return (msg.get("version"), msg.get("community"), pdu.get("tag"), pdu.get("f1"), pdu.get("f2"), tuple(map(tuple, pdu.get("varbinds", ()))))
 
 
-def run_case(label, op, value, other=None):
+def run_case(label, op, value, other=None, v1=False):
     from puresnmp import PyWrapper
 
     db = build_db(value, other)
     ag1 = ragent.Agent(db)
-    client1, _ = world.make_client(creds(), ag1.handle)
+    client1, _ = world.make_client(creds(v1), ag1.handle)
     raw, raw_exc = ops.run_op(client1, op)
     ag2 = ragent.Agent(db)
-    client2, _ = world.make_client(creds(), ag2.handle)
+    client2, _ = world.make_client(creds(v1), ag2.handle)
     w = PyWrapper(client2)
     out = []
     facts = {"method": label, "value": value, "raw_exception": ops.exc_sig(raw_exc)}
@@ -409,6 +419,7 @@ def shards(tier):
     return (
         [{"part": i, "of": 8, "tier": tier} for i in range(8)]
         + [{"pairs": True, "part": i, "of": 8, "tier": tier} for i in range(8)]
+        + [{"v1": True, "tier": tier}]
         + [{"sequence": True, "tier": tier}]
         + [{"value_sequence": True, "reverse": r, "tier": tier} for r in (False, True)]
         + [{"faulty": True, "tier": tier}]
@@ -424,6 +435,21 @@ def run_shard(params, acc):
         return
     if params.get("faulty"):
         run_faulty(acc)
+        return
+    if params.get("v1"):
+        # the wrapper around an SNMPv1 client (one value per kind; Counter64
+        # and the exception markers do not exist in SNMPv1)
+        for kind, vals in VALUES.items():
+            if kind == "c64":
+                continue
+            value = vals[0]
+            for label, op in method_ops(value):
+                violations, nreq = run_case(label, op, value, None, True)
+                acc.count(evaluations=1, nontrivial=1, states=1, transitions=max(nreq, 1), traces=1)
+                acc.outcome("ok" if not violations else "v1/%s/%s" % (label, violations[0]["kind"]))
+                for v in violations:
+                    v["case"] = {"label": label, "value": value, "v1": True}
+                    acc.violation(v)
         return
     if params.get("pairs"):
         for label, op, value, other in pair_cases()[params["part"] :: params["of"]]:
@@ -489,7 +515,7 @@ def replay(case):
         other = tuple(other)
         if other[0] == "oid":
             other = ("oid", tuple(other[1]))
-    return run_case(label, op, value, other)[0]
+    return run_case(label, op, value, other, bool(case.get("v1")))[0]
 
 
 def meta(tier):
